@@ -61,6 +61,10 @@ AMP_CAP = 1e5    # 1/rtol of takagi's grouping rule: pairs closer than that are 
 PER_MECH_CAP = 3
 
 
+class HarnessError(Exception):
+    """A broken assumption of the harness itself: crashes the shard (=> INCONCLUSIVE), never a violation."""
+
+
 def _maxabs(x):
     x = np.asarray(x)
     return float(np.max(np.abs(x))) if x.size else 0.0
@@ -363,9 +367,9 @@ def check_clements(ctx, pq, U, meta):
                 st = sim.execute(pq.Program(instructions=[prep] + cl.instructions_from_decomposition(dec))).state
                 ctx.c["gaussian_probe_executions"] += 1
                 if abs(m0[k]) == 0 or np.count_nonzero(m0) != 1:
-                    raise RuntimeError("harness: displacement probe did not prepare a single-mode coherent state")
+                    raise HarnessError("displacement probe did not prepare a single-mode coherent state")
                 G[:, k] = np.asarray(st._m) / m0[k]
-        except RuntimeError:
+        except HarnessError:
             raise
         except Exception as e:
             ctx.viol("clements-instructions-raise", "executing instructions_from_decomposition on GaussianSimulator raised %s: %s" % (type(e).__name__, e), case)
@@ -465,7 +469,7 @@ def check_williamson(ctx, pq, Mx, meta):
         ctx.c["d1_cases"] += 1
     ev = np.linalg.eigvalsh(Mx)
     if ev[0] <= 0:
-        raise RuntimeError("harness: generated matrix is not positive definite")
+        raise HarnessError("generated matrix is not positive definite")
     norm = float(ev[-1])
     cond = float(ev[-1] / ev[0])
     omega = np.block([[np.zeros((d, d)), np.eye(d)], [-np.eye(d), np.zeros((d, d))]])
@@ -615,7 +619,7 @@ def check_graph(ctx, pq, adj, meta):
         ctx.c["d1_cases"] += 1
     s = np.linalg.svd(np.asarray(adj, dtype=complex), compute_uv=False)
     if s[0] == 0:
-        raise RuntimeError("harness: zero adjacency matrix generated")
+        raise HarnessError("zero adjacency matrix generated")
     ctx.phase = "graph"
     ctx.last_takagi = None
     try:
@@ -639,7 +643,7 @@ def check_graph(ctx, pq, adj, meta):
     dx = 2 * (2e-12 + 4 * EPS * x)
     y = ((x + dx) * s) ** 2
     if (y >= 1).any():
-        raise RuntimeError("harness: photon-number request too close to the pole for the derived tolerance")
+        raise HarnessError("photon-number request too close to the pole for the derived tolerance")
     dNdx = float(np.sum(2 * (x + dx) * s ** 2 / (1 - y) ** 2))
     ntop = float(np.max(y / (1 - y)))
     tol_n = dNdx * dx + C * EPS * n * (1.0 + ntop) * 4
